@@ -855,7 +855,7 @@ def rule_E3(repo: Repo) -> RuleResult:
         return res
     n_paths = 0
     for p in enumerate_paths(loop.body):
-        if p.exit != "fall":
+        if p.exit not in ("fall", "continue"):
             continue
         n_paths += 1
         # names derived from the clock on this path
@@ -875,6 +875,24 @@ def rule_E3(repo: Repo) -> RuleResult:
                     and "times" in norm(st.value):
                 advanced = True
         construct = f"path {p.describe()[:90]}: {len(decays)} decay(s), clock {'advanced' if advanced else 'NOT advanced'}"
+        # the converse: the clock may only move where the interval that ends at this row was applied to the state, or
+        # where the path established that the group has no earlier row (clock[k] > 0 is false)
+        first_row = False
+        for t, pol in p.conds:
+            if isinstance(t, ast.Compare) and len(t.ops) == 1 and isinstance(t.left, ast.Subscript) and base_name(t.left) == clock:
+                c0 = const_int(t.comparators[0])
+                if (isinstance(t.ops[0], ast.Gt) and c0 == 0 and pol is False) or \
+                        (isinstance(t.ops[0], (ast.Eq, ast.LtE)) and c0 == 0 and pol is True) or \
+                        (isinstance(t.ops[0], ast.NotEq) and c0 == 0 and pol is False):
+                    first_row = True
+        if advanced and not decays and not first_row:
+            adv = next(st for st in p.stmts if isinstance(st, ast.Assign) and isinstance(st.targets[0], ast.Subscript)
+                       and base_name(st.targets[0]) == clock)
+            res.bad(f, adv, f"{norm(adv)} without decay on path {p.describe()[:70]}",
+                    f"the group's clock {clock}[{k}] is moved to this row's time on a path that did not decay the group's state by the "
+                    f"interval that ends here (and did not establish that the group has no earlier row): that interval is never "
+                    f"applied, so the rows that follow are under-decayed", path=p.describe())
+            continue
         if decays and not advanced:
             res.bad(f, decays[0], construct,
                     f"the group's state is decayed by the time elapsed since {clock}[{k}] but {clock}[{k}] is not moved to this "
